@@ -7,6 +7,7 @@ subscripts and calls.  Anything outside the supported subset raises Unsupported 
 from __future__ import annotations
 
 import ast
+import re as _re
 import operator
 
 from .source import AnalysisError
@@ -132,8 +133,10 @@ class Evaluator:
             return v
         if v is None:
             return False
-        if isinstance(v, (int, float, str, tuple, list, dict, set)):
+        if isinstance(v, (int, float, str, tuple, list, dict, set, frozenset, bytes)):
             return bool(v)
+        if isinstance(v, _re.Match):
+            return True
         t = getattr(v, "truth", None)
         if t is not None:
             return t()
